@@ -13,6 +13,20 @@ CS1 == {{"B"}}
 PS3 == {{}, {"A"}, {"A", "B"}}
 RS2 == {{"*"}, {"A"}, {"A", "B"}}
 RS3 == {{"*"}, {"A"}, {"B"}, {"C"}, {"A", "B"}, {"A", "C"}, {"B", "C"}, {"A", "B", "C"}}
+(* Simulation: one successor per action kind (TLC picks uniformly among successor states, so with Next the 3 x 6 Put
+   variants would swamp Delete) - arguments are drawn with RandomElement *)
+RE(S) == RandomElement(S)
+Written == {d \in Docs : docs[d].seq > 0}
+Live == {d \in Docs : docs[d].seq > 0 /\ ~docs[d].del /\ docs[d].alt = None}
+SimNext ==
+  /\ Len(hist) < MaxWrites
+  /\ \/ Put(RE(Docs), RE(PutSets))                                  \* create or update
+     \/ (Written # {} /\ Put(RE(Written), RE(PutSets)))              \* update / channel move / resurrect
+     \/ (Live # {} /\ Delete(RE(Live)))
+     \/ (Live # {} /\ Delete(RE(Live)))
+     \/ (Live # {} /\ Conflict(RE(Live), RE(ConfSets)))
+     \/ (Live # {} /\ ConflictWin(RE(Live), RE(ConfSets)))
+SimSpec == Init /\ [][SimNext]_vars
 BehaviourExport ==
   (Len(hist) = MaxWrites) => PrintT(<<"BEH", ToJson([grants |-> grants, steps |-> hist])>>)
 =============================================================================
